@@ -246,6 +246,41 @@ class SetV(Value):
         raise Unsupported('iteration over a symbolic set')
 
 
+class ItemSet(SetV):
+    """set of non-scalar values (tuples / sequences) given by a concrete list of candidate members whose pairwise
+    equality may be symbolic: {leaf.shape for leaf in leaves}"""
+
+    def __init__(self, cands):
+        self.cands = list(cands)
+        super().__init__(lambda x: z_or(*[z_eq(x, y) for y in self.cands]))
+
+    def len_at_least(self, k):
+        import itertools
+        if k <= 0:
+            return True
+        alts = []
+        for sub in itertools.combinations(range(len(self.cands)), k):
+            alts.append(z_and(*[z_not(z_eq(self.cands[i], self.cands[j])) for i in sub for j in sub if i < j]))
+        return z_or(*alts)
+
+    def py_getattr(self, interp, name):
+        if name == 'pop':
+            def pop(interp):
+                if not self.cands:
+                    interp.raise_('KeyError')
+                i = interp.run.decide(len(self.cands))      # an arbitrary member
+                x = self.cands[i]
+                rest = [y for y in self.cands if z_eq(x, y) is not True]
+                self.cands = rest
+                self.member = lambda y: z_and(z_or(*[z_eq(y, c) for c in rest]), z_not(z_eq(y, x)))
+                return x
+            return PyFunc(pop, 'set.pop')
+        return super().py_getattr(interp, name)
+
+    def py_iter(self, interp, expect=None):
+        raise Unsupported('iteration over a set of symbolic sequences')
+
+
 def set_len_cmp(interp, s: SetV, op, n):
     """len(s) <op> n for small constant n, as a term"""
     if s.items is not None and all(concrete(x) is not None for x in s.items):
@@ -253,6 +288,8 @@ def set_len_cmp(interp, s: SetV, op, n):
         return {'Eq': ln == n, 'NotEq': ln != n, 'Gt': ln > n, 'GtE': ln >= n, 'Lt': ln < n, 'LtE': ln <= n}[op]
 
     def at_least(k):
+        if hasattr(s, 'len_at_least'):
+            return s.len_at_least(k)
         if k <= 0:
             return True
         xs = [fresh_int('c') for _ in range(k)]
@@ -305,6 +342,8 @@ def make_set(interp, items):
     if isinstance(items, str):
         items = [ord(c) for c in items]
     items = list(items)
+    if items and all(isinstance(x, SSeq) or (isinstance(x, tuple) and any(is_z3(e) for e in x)) for x in items):
+        return ItemSet(items)
     if all(concrete(x) is not None or x is None or isinstance(x, (str, tuple)) for x in items):
         uniq = []
         for x in items:
@@ -804,6 +843,12 @@ def _quant(interp, v, is_all):
 
 
 def _sum(interp, v, start=0):
+    seq = as_seq_or_none(interp, v)
+    if seq is not None and not seq.is_concrete_len():
+        r = interp.theory.seq_sum(interp, seq, start) if interp.theory is not None else None
+        if r is None:
+            raise Unsupported('sum over a symbolic-length sequence')
+        return r
     items = interp.iter_concrete(v)
     acc = start
     for x in items:
